@@ -8,7 +8,7 @@ from . import c09_cases, common, e2
 
 PID = "C09"
 PROPS_FILE = "props/C09.v"
-MODEL_TARGETS = ["model/GraphDump.vo", "model/GraphInv.vo", "model/GraphTree.vo", "model/GraphTreeInv.vo"]
+MODEL_TARGETS = ["model/GraphDump.vo", "model/GraphInv.vo", "model/GraphTree.vo", "model/GraphTreeInv.vo", "model/GraphCheck.vo"]
 RULE = ("E2: a seeded online generator drives the real Workflow + Scheduler (in-memory SQLite, dispatch through the real "
         "pop_next_job) through the transaction alphabet of model/GraphTree.v (the 14 kinds of model/Graph.v with the tree-aware declaration functions + register_static_tree) following the executor / director / startup / "
         "finalize protocols (rejected requests, crashes, detached-but-running steps, identical re-declaration = full "
@@ -45,12 +45,66 @@ def generate(ctx):
     ctx.facts = gen_graph.generate(ctx)
 
 
-def _traces(ctx, n, length, tag=""):
+def _traces(ctx, n, length, tag="", startup=False):
     out = []
     for i in range(n):
         rng = random.Random(f"e2-{ctx.seed}-{ctx.tier}-{tag}{i}")
-        out.append(asyncio.run(asyncio.wait_for(e2.gen_trace(rng, length), 600)))
+        out.append(asyncio.run(asyncio.wait_for(e2.gen_trace(rng, length, startup=startup), 600)))
     return out
+
+
+HEADER_C = e2.HEADER.replace("model.GraphTree.", "model.GraphTree model.GraphInv model.GraphTreeInv model.GraphCheck.")
+PER_STARTUP = ("e2c", "inv_b", "repaired")
+
+
+def startup_family(ctx, tag=""):
+    """Traces of the alphabet op_c (model/GraphCheck.v): restarts run Workflow._check_consistency (production
+    mode, with its repair) before reset_interrupted, some runs are recorded as successful without all
+    their outputs (outside the build-loop protocol), every trace ends with the check.  Compared: outcome
+    and dump after every transaction; inv_b on every prefix; I4 (inv_succeeded_b) right after every
+    check_consistency; the strict consistency check of the implementation after the final repair."""
+    n, length = ctx.scale((8, 90), (40, 150))
+    traces = _traces(ctx, n, length, tag + "startup-", startup=True)
+    ctx.startup_traces = traces
+    cc = c09_cases
+    builders = []
+    for tr, cnt, strict in traces:
+        for k, v in cnt.items():
+            ctx.count("startup:" + k, v)
+        prev = None
+        for op, oc, detail, d in tr:
+            ctx.case(("startup", op[0], repr(d)), nontrivial=(d != prev or oc != "ok"))
+            if op[0] == "check_consistency" and d != prev:
+                ctx.count("startup:check_consistency_repairs")
+            prev = d
+        builders += [
+            lambda it, tr=tr: f"check_trace_c 3 {cc.cq_items_cc(tr, it)}",
+            lambda it, tr=tr: f"all_prefixes_ok_c inv_b (init_st 3) {cc.cq_ops_cc(tr, it)}",
+            lambda it, tr=tr: f"repaired_after_check (init_st 3) {cc.cq_ops_cc(tr, it)}",
+        ]
+    npt = len(PER_STARTUP)
+    bad = cc.run_cases(ctx, "e2c", HEADER_C, builders, chunk=4 * npt, jobs=4)
+    for b in bad:
+        kind, i = PER_STARTUP[b % npt], b // npt
+        tr = [t for t in traces[i][0] if t[0][0] != "dispatch_error"]
+        k = None
+        if kind == "e2c":
+            it2 = cc.Interner()
+            term = f"first_bad_c 0 (init_st 3) {cc.cq_items_cc(tr, it2)}"
+            v = common.eval_terms(ctx, "e2cdiag", HEADER_C + "\n".join(it2.defs) + "\n", [term])
+            import re
+            m = re.search(r"Some (\d+)", v[0] or "")
+            k = int(m.group(1)) if m else None
+        site = tr[k][0][0] if k is not None else "?"
+        sig = {"e2c": f"E2:graph:{site}", "inv_b": "E2:inv_b-false-on-reachable-state",
+               "repaired": "E2:succeeded-step-with-unbuilt-output-after-check_consistency"}[kind]
+        ctx.add_failure("correspondence", f"E2:startup:{kind}", sig,
+                        f"startup family, trace {i}: " +
+                        (f"model and implementation disagree at transaction {k}: {tr[k][0]} -> implementation {tr[k][1:3]}"
+                         if kind == "e2c" and k is not None else f"{kind} is false"),
+                        witness={"ops": [list(map(str, t[:2])) for t in (tr[: k + 1] if k is not None else tr)],
+                                 "implementation_dump": tr[k][3] if k is not None else None})
+    ctx.traces_validated += len(traces) - len([b for b in bad if b % npt == 0])
 
 
 PER_TRACE = ("e2", "inv_b", "inv_succeeded_b", "inv_treefile_b", "protocol_ok_run_t", "inv_full_b",
@@ -139,6 +193,7 @@ def correspondence(ctx, n_length=None, tag=""):
         ctx.add_failure("correspondence", "E2:inv_b", "E2:inv_b-false-on-reachable-state",
                         "the boolean invariant is false on a prefix of a trace that the implementation executed",
                         witness={"ops": [list(map(str, t[:2])) for t in tr]})
+    startup_family(ctx, tag)
 
 
 SELF_DEFINITION = [
@@ -330,7 +385,7 @@ def oracle(ctx):
                                 f"fixed witness '{name}': transaction {j} raised an internal error: {op} -> {detail}",
                                 witness={"ops": [list(map(str, t[:2])) for t in tr[: j + 1]]})
                 break
-    for i, (tr, cnt, strict) in enumerate(getattr(ctx, "traces", [])):
+    for i, (tr, cnt, strict) in enumerate(list(getattr(ctx, "traces", [])) + list(getattr(ctx, "startup_traces", []))):
         if strict:
             ctx.add_failure("oracle", "strict-consistency-check", "oracle:consistency-check:" + strict.split(":")[0],
                             f"Trellis/Workflow._check_consistency (strict) failed after trace {i}: {strict}",
